@@ -21,6 +21,14 @@ class Raised(Exception):
         self.eargs = args
 
 
+class Stopped(Exception):
+    """evaluation reached a call the caller asked to stop at"""
+    def __init__(self, fn, args):
+        Exception.__init__(self, fn)
+        self.fn = fn
+        self.args_ = args
+
+
 class _Return(Exception):
     def __init__(self, value):
         self.value = value
@@ -53,8 +61,10 @@ EXC_NAMES = {"ValueError", "TypeError", "KeyError", "IndexError", "Exception", "
 
 
 class MiniEval(object):
-    def __init__(self, repo, folder, fi, symbolic=(), max_steps=20000, self_attrs=None):
+    def __init__(self, repo, folder, fi, symbolic=(), max_steps=20000, self_attrs=None, stubs=None, stop_at=()):
         self.self_attrs = dict(self_attrs or {})      # constant instance attributes of the receiver (self.buf = b"...")
+        self.stubs = dict(stubs or {})                # call text -> stand-in (os.path.abspath as the identity on an absolute path)
+        self.stop_at = set(stop_at)                   # call texts at which evaluation ends with Stopped(fn, args)
         self.repo = repo
         self.folder = folder
         self.fi = fi
@@ -363,6 +373,10 @@ class MiniEval(object):
         if any(isinstance(a, ast.Starred) for a in e.args):
             raise Undecided("minieval: star arguments")
         kwargs = {k.arg: self.ev(k.value, env) for k in e.keywords if k.arg is not None}
+        if fn in self.stop_at:
+            raise Stopped(fn, tuple(args))
+        if fn in self.stubs:
+            return self.stubs[fn](*args, **kwargs)
         if fn in self.symbolic:
             return ("<sym>", fn, tuple(args), tuple(sorted(kwargs.items())))
         if fn in PURE_FUNCS:
